@@ -46,6 +46,8 @@ def run(rep, tier):
     # ... and the value delivered for a written expression is the evaluator's result for it, unmodified and always computed by the evaluator
     from . import c02
     common.guarded(rep, "C02.3", c02.c02_3, rep, ix, M)
+    from . import c18_py
+    common.guarded(rep, "C18.5", c18_py.c18_5, rep, ix)      # the value of an expression does not depend on where in the tree / the text it stands
 
 
 # ------------------------------------------------------------------------------------------- C03.1 precedence / associativity
